@@ -386,7 +386,7 @@ func (x *vtx) c17r2() {
 				c.ok("C17.R2", key, "store into a freshly allocated VT (constructor), exempt by role", m.pos(fs.Store.Pos()))
 				continue
 			}
-			g := newIG(m, fn, nil)
+			g := scanIG(m, fn, nil)
 			n := g.Idx[fs.Store]
 			val := fs.Store.Val
 			if k, ok := constInt64(val); ok && k == 1 {
@@ -458,30 +458,19 @@ func (x *vtx) c17r2() {
 				c.check(bad == "", "C17.R2", key, "cursorX+1 followed on every path by the cursorX > viewportWidth test whose true side calls lf(true), which resets cursorX to 1", bad, g.posOf(n))
 				continue
 			}
-			// SetCursorPosition-style clamp: phi of {1, dimension, argument within range}
-			if phi, ok := val.(*ssa.Phi); ok {
+			// SetCursorPosition-style clamp: a merge of {1, dimension, argument within range}
+			if g.isMerge(val) {
 				bad := ""
-				pe := g.predEdges(phi.Block())
-				var flat func(v ssa.Value, e Edge, depth int)
-				flat = func(v ssa.Value, e Edge, depth int) {
+				for _, vc := range g.valueCases(val, n) {
+					v := vc.Val
 					if k, ok := constInt64(v); ok && k == 1 {
-						return
+						continue
 					}
 					if isLoadOfField(v, dim) {
-						return
-					}
-					if inner, ok := v.(*ssa.Phi); ok && depth < 3 {
-						ipe := g.predEdges(inner.Block())
-						for i, ev := range inner.Edges {
-							flat(ev, ipe[i], depth+1)
-						}
-						return
+						continue
 					}
 					if prm, ok := v.(*ssa.Parameter); ok {
-						facts := g.FactsAt(e.From)
-						if f, ok := g.EdgeFact(e.From, e.K); ok {
-							facts = append(facts, f)
-						}
+						facts := g.ValFacts(vc)
 						lo := hasFact(facts, func(f Fact) bool {
 							return cmpMatch(f, token.GEQ, func(v ssa.Value) bool { return v == ssa.Value(prm) }, func(v ssa.Value) bool { k, ok := constInt64(v); return ok && k == 1 })
 						})
@@ -491,12 +480,9 @@ func (x *vtx) c17r2() {
 						if !lo || !hi {
 							bad = fmt.Sprintf("argument %s reaches the cursor on a path where it has not been tested to lie in [1, %s]", prm.Name(), dim.Name())
 						}
-						return
+						continue
 					}
 					bad = "unrecognised value stored to the cursor: " + describe(v)
-				}
-				for i, ev := range phi.Edges {
-					flat(ev, pe[i], 0)
 				}
 				c.check(bad == "", "C17.R2", key, "value is 1, the viewport dimension, or the argument on the side where both range tests failed", bad, g.posOf(n))
 				continue
@@ -515,7 +501,8 @@ func (x *vtx) refreshes(fn *ssa.Function, depth int) bool {
 	if depth > 2 || fn == nil || fn.Blocks == nil {
 		return false
 	}
-	g := newIG(x.m, fn, nil)
+	// a callee's summary does not make it an anchor
+	g := scanIG(x.m, fn, nil)
 	isRef := func(n int) bool {
 		cc := callCommon(g.Ins[n])
 		if cc == nil {
@@ -569,7 +556,7 @@ func (x *vtx) c17r3() {
 				c.ok("C17.R3", key, "named exception: AttachTo (first attach; the zero dataOffset is the offset of (1,1) with viewportY 0)")
 				continue
 			}
-			g := newIG(m, fn, nil)
+			g := scanIG(m, fn, nil)
 			n := g.Idx[fs.Store]
 			isRef := func(k int) bool {
 				if _, ok := g.Ins[k].(*ssa.Call); !ok {
